@@ -223,7 +223,27 @@ def int_dtype_promotion(name, c, detail):
     return name in ("sum", "sum_dim", "cumsum") and detail.startswith("dtype")
 
 
+def layer_norm_empty_block(name, c, detail):
+    """onnxruntime's LayerNormalization refuses an empty normalised block (a 0 in normalized_shape); PyTorch returns the
+    (empty) input and mean/rstd of the leading dims."""
+    return name in ("layer_norm", "native_layer_norm") and 0 in c["ns"]
+
+
+def glu_empty_dim(name, c, detail):
+    """Split(num_outputs=2) refuses an axis of size 0; torch's glu halves 0 to 0."""
+    return name == "glu" and _size(c, c["dim"]) == 0
+
+
+def addmm_empty_inner_beta(name, c, detail):
+    """onnxruntime's Gemm with an empty inner dimension (K = 0) returns C unscaled: beta is ignored (alpha*A@B is 0, so the
+    result should be beta*C, which is what torch.addmm returns)."""
+    return name == "addmm" and len(c["a"]) == 2 and c["a"][1] == 0 and c["beta"] != 1 and detail.startswith("values")
+
+
 PREDICATES = {
+    "C08-addmm-empty-inner-beta": addmm_empty_inner_beta,
+    "C08-layer-norm-empty-block": layer_norm_empty_block,
+    "C08-glu-empty-dim": glu_empty_dim,
     "C08-avg-pool-divisor-override-ignored": avg_pool_divisor_override,
     "C08-cross-entropy-label-smoothing-ignored": cross_entropy_label_smoothing,
     "C08-unfold-rank0-size0": unfold_rank0_size0,
